@@ -268,7 +268,11 @@ func (s *Solver) Check() SatResult {
 func (s *Solver) CheckWith(t *Term) SatResult {
 	s.Push()
 	s.Assert(t)
+	t0 := time.Now()
 	r := s.Check()
+	if d := time.Since(t0); d > 20*time.Millisecond && os.Getenv("GOSYM_SLOWQ") != "" {
+		fmt.Fprintf(os.Stderr, "slow query %v (%v) depth=%d vars=%d: %s\n", d, r, s.depth, len(s.tt.varsOf(t)), t.String())
+	}
 	s.Pop()
 	return r
 }
